@@ -77,6 +77,9 @@ def guess_demo_cmd(demo):
 
 def main():
     src, sid, prop = sys.argv[1:4]
+    if not os.path.isdir(WT):
+        # the scratch worktree is removed at the end of a session; recreate it on demand (outside /repo and /verif)
+        subprocess.run(f"git -C /repo worktree add -f --detach {WT} HEAD", shell=True, stdout=subprocess.DEVNULL, stderr=subprocess.DEVNULL)
     demo_cmd = None
     phase = "unit"
     if "--phase" in sys.argv:
